@@ -381,6 +381,8 @@ func proveP(facts []pFact, a *pt, op token.Token, b *pt) bool {
 					seen[t.String()] = true
 					if ProveNonNeg(linConst(31).Sub(linTerm(pOp("len", t.args[0]).String(), false)), lf) {
 						lf = append(lf, Fact{E: linTerm("B248", false).Sub(linTerm(t.String(), false)).Sub(linConst(1))})
+					} else if ProveNonNeg(linConst(32).Sub(linTerm(pOp("len", t.args[0]).String(), false)), lf) {
+						lf = append(lf, Fact{E: linTerm("B256", false).Sub(linTerm(t.String(), false)).Sub(linConst(1))})
 					}
 				}
 			}
@@ -551,6 +553,12 @@ func (d *protoDom) binop(st *sState, x *ssa.BinOp, a, b sVal) (sVal, bool) {
 		}
 		if ta.op == "eqb" && tb.op == "c" { // ConstantTimeCompare(...) == 1 / != 0 ...
 			if c, ok := eqb2(ta, x.Op, tb); ok {
+				return c, true
+			}
+		}
+		if tb.op == "eqb" && ta.op == "c" { // 1 == x.IsZero() (switch 1 { case x.IsZero(): ... })
+			rev := map[token.Token]token.Token{token.EQL: token.EQL, token.NEQ: token.NEQ, token.LSS: token.GTR, token.LEQ: token.GEQ, token.GTR: token.LSS, token.GEQ: token.LEQ}
+			if c, ok := eqb2(tb, rev[x.Op], ta); ok {
 				return c, true
 			}
 		}
